@@ -70,6 +70,10 @@ PARTIAL = ["codon-wise mutation list (--aa): proved are the error condition (= t
            "(proposed_fixes/c14-pssm-empty-alignment.diff: an error), the model follows the repaired code (pssm_no_panic, "
            "pssm_empty_is_error, pssm_err_iff_all); the witness `pssm 1 _ 0 0 1 1` is in corpus/C14 and in the generator "
            "(tag pssm-empty): on a tree without the guard the check fails on it with verdict fail:pssm-crash",
+           "command line `compute pssm` (cmd/pssm.go, printPSSM): the table the built binary prints is the Float evaluation of the "
+           "model printed with a model of strconv's '%.3f' (exact binary value, ties to even, NaN / +Inf / -Inf, signed zero): "
+           "byte for byte without logarithms, and with --log / the logo a cell may be the printed form of a value within 1e-12 "
+           "(relative) of the model's (last place of math.Log); pseudo-counts a float64 does not hold exactly are not decided",
            "the model is stated for ASCII residues: CharStats / InformativeSites index 130-entry slices with unicode.ToUpper(rune) "
            "(bytes >= 130 panic in Go; only NumMutationsUniquePerSequence models that panic explicitly)",
            "CountDifferences on an alignment without sequences and CountProfile.CountsAt(len) were run-time panics: repaired "
@@ -360,7 +364,7 @@ def gen(rng, tier):
     for c in _gen_aa(rng, tier):
         yield c
     from driver import cligen
-    for c in cligen.cases(rng, ['consensus', 'entropy', 'stats', 'gapstats', 'mutstats', 'charstats', 'alleles', 'alphabet'], 40 if tier == "quick" else 400):
+    for c in cligen.cases(rng, ['consensus', 'entropy', 'stats', 'gapstats', 'mutstats', 'charstats', 'alleles', 'alphabet', 'pssm', 'summary'], 40 if tier == "quick" else 400):
         yield c
     for c in cligen.cases(rng, ['mutlist', 'mutcount'], 30 if tier == "quick" else 600):
         yield c
